@@ -250,11 +250,16 @@ func (e *encoderJsonBytes) kArrayWMbs(rv reflect.Value, ti *typeInfo, isSlice bo
 		fn = e.kSeqFn(ti.elem)
 	}
 
+	elemNotAddr := !isSlice && e.h.NoAddressableReadonly && !rv.CanAddr()
+
 	j := 0
 	e.c = containerMapKey
 	e.e.WriteMapElemKey(true)
 	for {
 		rvv := rvArrayIndex(rv, j, ti, isSlice)
+		if elemNotAddr {
+			rvv = rvNotAddressable(rvv)
+		}
 		if builtin {
 			e.encodeIB(rv2i(baseRVRV(rvv)))
 		} else {
@@ -295,11 +300,16 @@ func (e *encoderJsonBytes) kArrayW(rv reflect.Value, ti *typeInfo, isSlice bool)
 		fn = e.kSeqFn(ti.elem)
 	}
 
+	elemNotAddr := !isSlice && e.h.NoAddressableReadonly && !rv.CanAddr()
+
 	j := 0
 	e.c = containerArrayElem
 	e.e.WriteArrayElem(true)
 	for {
 		rvv := rvArrayIndex(rv, j, ti, isSlice)
+		if elemNotAddr {
+			rvv = rvNotAddressable(rvv)
+		}
 		if builtin {
 			e.encodeIB(rv2i(baseRVRV(rvv)))
 		} else {
@@ -676,6 +686,10 @@ func (e *encoderJsonBytes) kMap(f *encFnInfo, rv reflect.Value) {
 	}
 
 	var rvv = mapAddrLoopvarRV(f.ti.elem, vtypeKind)
+	if e.h.NoAddressableReadonly {
+
+		rvv = rvNotAddressable(rvv)
+	}
 
 	rtkey := f.ti.key
 	var keyTypeIsString = stringTypId == rt2id(rtkey)
@@ -698,6 +712,9 @@ func (e *encoderJsonBytes) kMap(f *encFnInfo, rv reflect.Value) {
 	}
 
 	var rvk = mapAddrLoopvarRV(f.ti.key, ktypeKind)
+	if e.h.NoAddressableReadonly {
+		rvk = rvNotAddressable(rvk)
+	}
 
 	var it mapIter
 	mapRange(&it, rv, rvk, rvv, true)
@@ -4466,11 +4483,16 @@ func (e *encoderJsonIO) kArrayWMbs(rv reflect.Value, ti *typeInfo, isSlice bool)
 		fn = e.kSeqFn(ti.elem)
 	}
 
+	elemNotAddr := !isSlice && e.h.NoAddressableReadonly && !rv.CanAddr()
+
 	j := 0
 	e.c = containerMapKey
 	e.e.WriteMapElemKey(true)
 	for {
 		rvv := rvArrayIndex(rv, j, ti, isSlice)
+		if elemNotAddr {
+			rvv = rvNotAddressable(rvv)
+		}
 		if builtin {
 			e.encodeIB(rv2i(baseRVRV(rvv)))
 		} else {
@@ -4511,11 +4533,16 @@ func (e *encoderJsonIO) kArrayW(rv reflect.Value, ti *typeInfo, isSlice bool) {
 		fn = e.kSeqFn(ti.elem)
 	}
 
+	elemNotAddr := !isSlice && e.h.NoAddressableReadonly && !rv.CanAddr()
+
 	j := 0
 	e.c = containerArrayElem
 	e.e.WriteArrayElem(true)
 	for {
 		rvv := rvArrayIndex(rv, j, ti, isSlice)
+		if elemNotAddr {
+			rvv = rvNotAddressable(rvv)
+		}
 		if builtin {
 			e.encodeIB(rv2i(baseRVRV(rvv)))
 		} else {
@@ -4892,6 +4919,10 @@ func (e *encoderJsonIO) kMap(f *encFnInfo, rv reflect.Value) {
 	}
 
 	var rvv = mapAddrLoopvarRV(f.ti.elem, vtypeKind)
+	if e.h.NoAddressableReadonly {
+
+		rvv = rvNotAddressable(rvv)
+	}
 
 	rtkey := f.ti.key
 	var keyTypeIsString = stringTypId == rt2id(rtkey)
@@ -4914,6 +4945,9 @@ func (e *encoderJsonIO) kMap(f *encFnInfo, rv reflect.Value) {
 	}
 
 	var rvk = mapAddrLoopvarRV(f.ti.key, ktypeKind)
+	if e.h.NoAddressableReadonly {
+		rvk = rvNotAddressable(rvk)
+	}
 
 	var it mapIter
 	mapRange(&it, rv, rvk, rvv, true)
